@@ -5,7 +5,7 @@ _NOTE = ("Bounded: holds for all values within the bounds recorded in the eviden
          "coverage.stubs (differentially self-tested each run), and the spec-derived reference under /verif/ref. "
          "Besides the instances named above each check carries history, interleaving (loop-turn offsets inside one virtual instant) "
          "and boundary instances added in response to seeded changes and reported defects; the evidence file lists every instance "
-         "explored (coverage.instances) and DESIGN.md sections 7 and 10 say where each came from.")
+         "explored (coverage.instance_parameters) and DESIGN.md sections 7 and 10 say where each came from.")
 _TECH = "symbolic execution of the real Python code on z3-backed proxy values (BV64/Float64/Real), branch decisions and obligations decided by z3, counterexamples replayed concretely"
 
 CLAIMS = {
